@@ -119,6 +119,8 @@ TFilter == IsEv("Filter") /\ Filter(Ev.ids) /\ Consume
            /\ Note(Flag("C13_FilterKeepsNewest", Ev.ids # <<>> /\ Last(Ev.ids) = Last(mem))
                    \cup Flag("C13_FilterSubseq", IsSubSeq(Ev.ids, mem))
                    \cup Flag("C13_FilterCurv", Ev.allCurv))
+\* the filter is an internal step: a run that does not log it is judged on the resulting memory alone
+TNoFilter == pc = "Filter" /\ ~IsEv("Filter") /\ Filter(mem) /\ Silent /\ Note({})
 TMemUpdate == IsEv("MemUpd") /\ MemUpdate(Ev.ids # Ev.before, Ev.ids) /\ Consume
               /\ Note(MemClauses(Ev))
 TCallback == IsEv("Callback") /\ ~Ev.exc /\ Callback(StateRec("cb", ObsOf(Ev, Ev.frozen)), Ev.ret) /\ Consume
@@ -144,7 +146,7 @@ Main == \/ TCrash \/ TCrashLS \/ TStart \/ TRestart \/ TRaise \/ TRaiseLS \/ TEv
         \/ TNoEarly \/ TStencil \/ TEvalG0 \/ TScaler \/ TNoScaler \/ TUpd0 \/ TNoUpd0
         \/ TMem0First \/ TMem0Restart \/ TGuardEnter \/ TGuardExit \/ TLSBegin \/ TTrialF \/ TTrialG
         \/ TLSNone \/ TLSStep \/ TAccFEval \/ TAccFHit \/ TAccFSkip \/ TAccGEval \/ TAccGHit
-        \/ TAccGSkip \/ TUpd \/ TStopTarget \/ TStopFtol \/ TNoStop \/ TFilter \/ TMemUpdate
+        \/ TAccGSkip \/ TUpd \/ TStopTarget \/ TStopFtol \/ TNoStop \/ TFilter \/ TNoFilter \/ TMemUpdate
         \/ TCallback \/ TNoCallback \/ TEndIter \/ TReturn \/ TPropagate
 
 (* The specification cannot follow the trace: after a fault this is a      *)
